@@ -284,132 +284,238 @@ Qed.
 (* ------------------------------------------------------------------------------------------------ *)
 (* the lexical scanner *)
 
-(* the scanner looks one character ahead only to see a second '-', a '*' or a '/' *)
+Section Ids.
+(* the characters that start / continue the tag of a dollar-quoted string (parameters of the scanner) *)
+Variables ids idc : N -> bool.
+(* the line break, the space and the tab do not continue a tag *)
+Definition id_ok : Prop := idc 10 = false /\ idc 32 = false /\ idc 9 = false.
+Hypothesis Hid : id_ok.
+
+Notation scan_tag := (scan_tag idc).
+Notation dollar_tag := (dollar_tag ids idc).
+Notation lstep := (lstep ids idc).
+Notation lex := (lex ids idc).
+Notation lex_end := (lex_end ids idc).
+Notation ctext := (ctext ids idc).
+Notation clines := (clines ids idc).
+Notation per_cline := (per_cline ids idc).
+Notation l001_fix := (l001_fix ids idc).
+Notation l001_check := (l001_check ids idc).
+Notation l002_fix := (l002_fix ids idc).
+Notation l002_check := (l002_check ids idc).
+Notation l003_fix_mx := (l003_fix_mx ids idc).
+Notation l003_fix := (l003_fix ids idc).
+Notation l003_check_mx := (l003_check_mx ids idc).
+Notation l003_check := (l003_check ids idc).
+Notation l005_check := (l005_check ids idc).
+Notation l010_fix := (l010_fix ids idc).
+Notation l010_check := (l010_check ids idc).
+Notation l007_fix := (l007_fix ids idc).
+Notation l007_check := (l007_check ids idc).
+Notation cli_fix := (cli_fix ids idc).
+Notation format_sql := (format_sql ids idc).
+Notation reading := (reading ids idc).
+
+(* what the scanner sees of the characters that follow: a second '-', a '*' or a '/', a quote of the apostrophe kind, two
+   apostrophes, the tag of a dollar-quoted string *)
 Definition la_eq (nx nx' : list ch) : Prop :=
-  next_is 45 nx = next_is 45 nx' /\ next_is 42 nx = next_is 42 nx' /\ next_is 47 nx = next_is 47 nx'.
-Definition lan (c : ch) : bool := negb (cp c =? 45) && negb (cp c =? 42) && negb (cp c =? 47).
+  next_is 45 nx = next_is 45 nx' /\ next_is 42 nx = next_is 42 nx' /\ next_is 47 nx = next_is 47 nx' /\
+  next_is 39 nx = next_is 39 nx' /\ next_q39 nx = next_q39 nx' /\ next2_39 nx = next2_39 nx' /\
+  scan_tag nx = scan_tag nx' /\ dollar_tag nx = dollar_tag nx'.
+(* a character at which every look-ahead stops, as at the end of the text *)
+Definition lan0 (c : ch) : bool := negb (cp c =? 45) && negb (cp c =? 42) && negb (cp c =? 47).
+Definition lan (c : ch) : bool := lan0 c && negb (nq (cp c) =? 39) && negb (cp c =? 36) && negb (idc (cp c)).
 
 Lemma la_eq_refl : forall nx, la_eq nx nx.
 Proof. intro nx. repeat split. Qed.
+Lemma la_sym : forall a b, la_eq a b -> la_eq b a.
+Proof. intros a b (H1 & H2 & H3 & H4 & H5 & H6 & H7 & H8). repeat split; symmetry; assumption. Qed.
+Lemma la_trans : forall a b c, la_eq a b -> la_eq b c -> la_eq a c.
+Proof.
+  intros a b c (H1 & H2 & H3 & H4 & H5 & H6 & H7 & H8) (G1 & G2 & G3 & G4 & G5 & G6 & G7 & G8).
+  repeat split; etransitivity; eassumption.
+Qed.
 
 Lemma lstep_nx : forall st c nx nx', la_eq nx nx' -> lstep st c nx = lstep st c nx'.
 Proof.
-  intros st c nx nx' (H1 & H2 & H3). destruct st; cbn [lstep]; rewrite ?H1, ?H2, ?H3; reflexivity.
+  intros st c nx nx' (H1 & H2 & H3 & H4 & H5 & H6 & H7 & H8). destruct st; cbn [Lint.lstep]; rewrite ?H1, ?H2, ?H3, ?H5, ?H6, ?H8; reflexivity.
+Qed.
+
+Lemma nq_39 : forall n, n = 39 -> nq n = 39.
+Proof. intros n H. subst. reflexivity. Qed.
+
+Lemma lan_spec : forall c, lan c = true ->
+  (cp c =? 45) = false /\ (cp c =? 42) = false /\ (cp c =? 47) = false /\ (nq (cp c) =? 39) = false /\ (cp c =? 39) = false /\
+  (cp c =? 36) = false /\ idc (cp c) = false.
+Proof.
+  intros c H. unfold lan, lan0 in H. rewrite !andb_true_iff, !negb_true_iff in H.
+  destruct H as [[[[[A B] C] Q] D] I]. repeat split; try assumption.
+  destruct (cp c =? 39) eqn:E; [|reflexivity]. apply N.eqb_eq in E. rewrite (nq_39 _ E) in Q. discriminate.
 Qed.
 
 Lemma la_neutral : forall c r, lan c = true -> la_eq (c :: r) [].
 Proof.
-  intros c r H. unfold lan in H. apply andb_prop in H. destruct H as [H H3]. apply andb_prop in H. destruct H as [H1 H2].
-  apply negb_true_iff in H1. apply negb_true_iff in H2. apply negb_true_iff in H3.
-  unfold la_eq. cbn [next_is]. rewrite H1, H2, H3. repeat split.
+  intros c r H. destruct (lan_spec c H) as (A1 & A2 & A3 & A4 & A5 & A6 & A7).
+  unfold la_eq. cbn [next_is next_q39 Lint.scan_tag Lint.dollar_tag]. rewrite A1, A2, A3, A4, A5, A6, A7.
+  repeat split.
+  - unfold next2_39. rewrite A5. destruct r; reflexivity.
+  - destruct (false || ids (cp c)); reflexivity.
+Qed.
+
+Lemma next2_cons : forall c r, next2_39 (c :: r) = (cp c =? 39) && next_is 39 r.
+Proof. intros c [|d r]; cbn [next2_39 next_is]; [rewrite andb_false_r|]; reflexivity. Qed.
+
+Lemma la_cons : forall c r r', la_eq r r' -> la_eq (c :: r) (c :: r').
+Proof.
+  intros c r r' (H1 & H2 & H3 & H4 & H5 & H6 & H7 & H8). unfold la_eq. rewrite !next2_cons, H4.
+  cbn [next_is next_q39 Lint.scan_tag Lint.dollar_tag]. rewrite H7. repeat split.
 Qed.
 
 Definition hd_neutral (b : list ch) : bool := match b with c :: _ => lan c | [] => true end.
 
 Lemma la_app : forall t b, hd_neutral b = true -> la_eq (t ++ b) t.
 Proof.
-  intros [|d t] b H; cbn [app].
+  induction t as [|d t IH]; intros b H; cbn [app].
   - destruct b as [|c b]; [apply la_eq_refl|]. apply la_neutral. exact H.
-  - repeat split.
+  - apply la_cons. apply IH. exact H.
 Qed.
+
+Lemma la_neutral_heads : forall c d t t', lan c = true -> lan d = true -> la_eq (c :: t) (d :: t').
+Proof. intros c d t t' Hc Hd. eapply la_trans; [apply la_neutral; exact Hc|apply la_sym; apply la_neutral; exact Hd]. Qed.
 
 Lemma lex_app : forall a st b, hd_neutral b = true ->
   lex st (a ++ b) = lex st a ++ lex (lex_end st a) b /\ lex_end st (a ++ b) = lex_end (lex_end st a) b.
 Proof.
   induction a as [|c t IH]; intros st b H; [split; reflexivity|].
-  cbn [app lex lex_end]. rewrite (lstep_nx st c (t ++ b) t (la_app t b H)).
+  cbn [app Lint.lex Lint.lex_end]. rewrite (lstep_nx st c (t ++ b) t (la_app t b H)).
   destruct (IH (snd (lstep st c t)) b H) as [E1 E2]. rewrite E1, E2. split; reflexivity.
 Qed.
 
 Lemma lex_length : forall l st, length (lex st l) = length l.
-Proof. induction l as [|c t IH]; intro st; [reflexivity|]. cbn [lex length]. rewrite IH. reflexivity. Qed.
+Proof. induction l as [|c t IH]; intro st; [reflexivity|]. cbn [Lint.lex length]. rewrite IH. reflexivity. Qed.
 
 (* the line break *)
 Definition nl_step (st : lst) : N * lst := lstep st nlc [].
 Lemma lstep_nlc : forall st nx, lstep st nlc nx = nl_step st.
-Proof. intros st nx. unfold nl_step. destruct st; reflexivity. Qed.
-Lemma lan_nlc : lan nlc = true. Proof. reflexivity. Qed.
+Proof.
+  intros st nx. unfold nl_step. destruct st; try reflexivity.
+  cbn [Lint.lstep]. change (nq (cp nlc)) with 10. destruct (10 =? q) eqn:E; [|reflexivity].
+  apply N.eqb_eq in E. subst q. reflexivity.
+Qed.
+Lemma lan_nlc : lan nlc = true.
+Proof. destruct Hid as (H & _). unfold lan, lan0. change (cp nlc) with 10. rewrite H. reflexivity. Qed.
 
 Lemma lex_app_nl : forall l st r,
   lex st (l ++ nlc :: r) = lex st l ++ fst (nl_step (lex_end st l)) :: lex (snd (nl_step (lex_end st l))) r /\
   lex_end st (l ++ nlc :: r) = lex_end (snd (nl_step (lex_end st l))) r.
 Proof.
   intros l st r. destruct (lex_app l st (nlc :: r) lan_nlc) as [E1 E2]. rewrite E1, E2.
-  cbn [lex lex_end]. rewrite lstep_nlc. split; reflexivity.
+  cbn [Lint.lex Lint.lex_end]. rewrite lstep_nlc. split; reflexivity.
 Qed.
 
 (* after a line break of class code the scanner is in code *)
 Lemma nl_step_code : forall st, (fst (nl_step st) =? 0) = true -> snd (nl_step st) = SCode.
-Proof. intros st H. destruct st; cbn in *; try discriminate; reflexivity. Qed.
+Proof.
+  intros st H. unfold nl_step in *. destruct st; try reflexivity; try discriminate H.
+  cbn [Lint.lstep] in H. change (nq (cp nlc)) with 10 in H.
+  destruct (10 =? q); [destruct ((q =? 39) && next_q39 [])|]; discriminate H.
+Qed.
 
 (* characters that are neither delimiters nor the line break *)
 Lemma nq_other : forall n, (n =? 8216) = false -> (n =? 8217) = false -> (n =? 171) = false -> (n =? 187) = false ->
   (n =? 8220) = false -> (n =? 8221) = false -> nq n = n.
 Proof. intros n H1 H2 H3 H4 H5 H6. unfold nq. rewrite H1, H2, H3, H4, H5, H6. reflexivity. Qed.
 
-(* white space characters are not delimiters of the scanner *)
+(* white space characters are not delimiters of the scanner and do not continue a tag *)
 Definition sp_ok (is_space : N -> bool) : Prop :=
   is_space 39 = false /\ is_space 34 = false /\ is_space 96 = false /\
   is_space 45 = false /\ is_space 42 = false /\ is_space 47 = false /\
   is_space 8216 = false /\ is_space 8217 = false /\ is_space 171 = false /\ is_space 187 = false /\
-  is_space 8220 = false /\ is_space 8221 = false.
+  is_space 8220 = false /\ is_space 8221 = false /\ is_space 36 = false /\
+  (forall n, is_space n = true -> idc n = false).
 
-Definition plainc (c : ch) : bool := negb (is_quote c) && lan c && negb (is_nl c).
+(* a character the scanner reads without looking ahead, as code in code and as comment in a -- comment *)
+Definition plainc (c : ch) : bool := negb (is_quote c) && lan0 c && negb (is_nl c) && negb (cp c =? 36).
 
 Lemma plainc_spec : forall c, plainc c = true ->
-  is_quote c = false /\ (cp c =? 45) = false /\ (cp c =? 42) = false /\ (cp c =? 47) = false /\ is_nl c = false.
+  is_quote c = false /\ (cp c =? 45) = false /\ (cp c =? 42) = false /\ (cp c =? 47) = false /\ is_nl c = false /\ (cp c =? 36) = false.
 Proof.
-  intros c H. unfold plainc, lan in H. apply andb_prop in H. destruct H as [H H5]. apply andb_prop in H. destruct H as [H1 H].
-  apply andb_prop in H. destruct H as [H H4]. apply andb_prop in H. destruct H as [H2 H3].
-  repeat split; apply negb_true_iff; assumption.
+  intros c H. unfold plainc, lan0 in H. rewrite !andb_true_iff, !negb_true_iff in H.
+  destruct H as [[[Q [[A B] C]] D] E]. repeat split; assumption.
+Qed.
+
+Lemma quote_39 : forall c, is_quote c = false -> (cp c =? 39) = false /\ (nq (cp c) =? 39) = false.
+Proof.
+  intros c H. unfold is_quote in H. apply orb_false_elim in H. destruct H as [H _]. apply orb_false_elim in H. destruct H as [H _].
+  split; [|exact H]. destruct (cp c =? 39) eqn:E; [|reflexivity]. apply N.eqb_eq in E. rewrite (nq_39 _ E) in H. discriminate.
 Qed.
 
 Lemma lstep_plain_code : forall c nx, plainc c = true -> lstep SCode c nx = (0, SCode).
 Proof.
-  intros c nx H. destruct (plainc_spec c H) as (Q & A & _ & B & _). cbn [lstep]. rewrite Q, A, B. reflexivity.
+  intros c nx H. destruct (plainc_spec c H) as (Q & A & _ & B & _ & D). destruct (quote_39 c Q) as [Q1 _].
+  cbn [Lint.lstep]. rewrite Q, Q1, A, B, D. reflexivity.
 Qed.
 Lemma lstep_plain_line : forall c nx, plainc c = true -> lstep SLine c nx = (3, SLine).
 Proof.
-  intros c nx H. unfold plainc in H. apply andb_prop in H. destruct H as [_ H]. apply negb_true_iff in H.
-  cbn [lstep]. rewrite H. reflexivity.
+  intros c nx H. destruct (plainc_spec c H) as (_ & _ & _ & _ & Hn & _).
+  cbn [Lint.lstep]. rewrite Hn. reflexivity.
+Qed.
+
+Lemma quote_nq : forall c q, is_quote c = false -> (q = 39 \/ q = 34 \/ q = 96) -> (nq (cp c) =? q) = false.
+Proof.
+  intros c q H Hq. unfold is_quote in H. apply orb_false_elim in H. destruct H as [H H3]. apply orb_false_elim in H. destruct H as [H1 H2].
+  destruct Hq as [Hq|[Hq|Hq]]; subst q; try assumption.
+  destruct (nq (cp c) =? 96) eqn:E; [|reflexivity]. apply N.eqb_eq in E.
+  assert (cp c = 96).
+  { unfold nq in E. destruct ((cp c =? 8216) || (cp c =? 8217) || (cp c =? 171) || (cp c =? 187)); [discriminate|].
+    destruct ((cp c =? 8220) || (cp c =? 8221)); [discriminate|exact E]. }
+  apply N.eqb_neq in H3. contradiction.
 Qed.
 
 (* a character of class 0 (other than the line break) is read in code and leaves the scanner in code;
    a character of class 3 that is not a '-' is read inside a line comment *)
 Lemma lstep_class0 : forall st c nx, is_nl c = false -> fst (lstep st c nx) = 0 -> st = SCode /\ snd (lstep st c nx) = SCode.
 Proof.
-  intros st c nx Hn H. destruct st; cbn [lstep] in *.
-  - destruct (is_quote c); [discriminate|]. destruct ((cp c =? 45) && next_is 45 nx); [discriminate|].
-    destruct ((cp c =? 47) && next_is 42 nx); [discriminate|]. split; reflexivity.
-  - discriminate.
+  intros st c nx Hn H. destruct st; cbn [Lint.lstep] in *; try discriminate.
+  - destruct ((cp c =? 39) && next2_39 nx); [discriminate|]. destruct (is_quote c); [discriminate|].
+    destruct ((cp c =? 45) && next_is 45 nx); [discriminate|].
+    destruct ((cp c =? 47) && next_is 42 nx); [discriminate|].
+    destruct (cp c =? 36); [destruct (dollar_tag nx); [discriminate|]|]; split; reflexivity.
+  - destruct (nq (cp c) =? q); [destruct ((q =? 39) && next_q39 nx)|]; discriminate.
   - rewrite Hn in H. discriminate.
-  - discriminate.
   - destruct ((cp c =? 42) && next_is 47 nx); discriminate.
-  - discriminate.
 Qed.
 Lemma lstep_class3 : forall st c nx, (cp c =? 45) = false -> fst (lstep st c nx) = 3 -> st = SLine /\ snd (lstep st c nx) = SLine.
 Proof.
-  intros st c nx Hd H. destruct st; cbn [lstep] in *.
-  - destruct (is_quote c); [discriminate|]. rewrite Hd in H. cbn [andb] in H.
-    destruct ((cp c =? 47) && next_is 42 nx); discriminate.
-  - discriminate.
+  intros st c nx Hd H. destruct st; cbn [Lint.lstep] in *; try discriminate.
+  - destruct ((cp c =? 39) && next2_39 nx); [discriminate|]. destruct (is_quote c); [discriminate|]. rewrite Hd in H. cbn [andb] in H.
+    destruct ((cp c =? 47) && next_is 42 nx); [discriminate|].
+    destruct (cp c =? 36); [destruct (dollar_tag nx)|]; discriminate.
+  - destruct (nq (cp c) =? q); [destruct ((q =? 39) && next_q39 nx)|]; discriminate.
   - destruct (is_nl c); [discriminate|]. split; reflexivity.
-  - discriminate.
   - destruct ((cp c =? 42) && next_is 47 nx); discriminate.
-  - discriminate.
 Qed.
 
 Lemma blank_plain : forall c, is_blank c = true -> plainc c = true.
 Proof.
-  intros c H. unfold is_blank, is_sp, is_tab in H. unfold plainc, is_quote, lan, is_nl.
+  intros c H. unfold is_blank, is_sp, is_tab in H. unfold plainc, is_quote, lan0, is_nl.
   apply orb_prop in H. destruct H as [H|H]; apply N.eqb_eq in H; rewrite H; reflexivity.
 Qed.
 Lemma blank_not45 : forall c, is_blank c = true -> (cp c =? 45) = false.
 Proof.
   intros c H. unfold is_blank, is_sp, is_tab in H. apply orb_prop in H. destruct H as [H|H]; apply N.eqb_eq in H; rewrite H; reflexivity.
 Qed.
-Lemma plain_lan : forall c, plainc c = true -> lan c = true.
-Proof. intros c H. unfold plainc in H. apply andb_prop in H. destruct H as [H _]. apply andb_prop in H. tauto. Qed.
+(* a plain character that does not continue a tag stops every look-ahead *)
+Lemma plain_lan : forall c, plainc c = true -> idc (cp c) = false -> lan c = true.
+Proof.
+  intros c H Hi. destruct (plainc_spec c H) as (Q & A & B & C & _ & D). destruct (quote_39 c Q) as [_ Q2].
+  unfold lan, lan0. rewrite A, B, C, Q2, D, Hi. reflexivity.
+Qed.
+Lemma blank_lan : forall c, is_blank c = true -> lan c = true.
+Proof.
+  intros c H. apply plain_lan; [apply blank_plain; exact H|]. destruct Hid as (_ & H32 & H9).
+  unfold is_blank, is_sp, is_tab in H. apply orb_prop in H. destruct H as [H|H]; apply N.eqb_eq in H; rewrite H; assumption.
+Qed.
 
 (* ------------------------------------------------------------------------------------------------ *)
 (* the classified lines of a text *)
@@ -462,11 +568,11 @@ Qed.
 
 Lemma clines_thread : forall t, clines t = thread SCode true (split_nl t).
 Proof.
-  intro t. unfold clines, ctext. rewrite <- (join_split t) at 1 2. apply csplit_thread; [apply split_nonempty|apply split_no_nl].
+  intro t. unfold Lint.clines, Lint.ctext. rewrite <- (join_split t) at 1 2. apply csplit_thread; [apply split_nonempty|apply split_no_nl].
 Qed.
 
 Lemma clines_join : forall ls, ls <> [] -> Forall no_nl ls -> clines (join_nl ls) = thread SCode true ls.
-Proof. intros ls H1 H2. unfold clines, ctext. apply csplit_thread; assumption. Qed.
+Proof. intros ls H1 H2. unfold Lint.clines, Lint.ctext. apply csplit_thread; assumption. Qed.
 
 Lemma combine_fst_snd : forall (l : list cc), combine (map fst l) (map snd l) = l.
 Proof. induction l as [|[c k] l IH]; [reflexivity|]. cbn. f_equal. exact IH. Qed.
@@ -513,7 +619,7 @@ Proof. intros [|l r] st flag H; [contradiction|discriminate]. Qed.
 (* re-scanning the output of a per-line rule gives the rewritten classified lines *)
 Theorem relex : forall f t, lock f -> clines (per_cline f t) = map (on_snd f) (clines t).
 Proof.
-  intros f t Hf. unfold per_cline. rewrite (clines_thread t).
+  intros f t Hf. unfold Lint.per_cline. rewrite (clines_thread t).
   rewrite clines_join.
   - apply thread_lock; [exact Hf|apply split_no_nl].
   - apply map_ne. apply thread_ne. apply split_nonempty.
@@ -522,7 +628,7 @@ Qed.
 
 Theorem per_cline_idem : forall f, lock f -> (forall l, f (f l) = f l) -> forall t, per_cline f (per_cline f t) = per_cline f t.
 Proof.
-  intros f Hf Hi t. unfold per_cline at 1. rewrite (relex f t Hf). unfold per_cline. f_equal. rewrite map_map.
+  intros f Hf Hi t. unfold Lint.per_cline at 1. rewrite (relex f t Hf). unfold Lint.per_cline. f_equal. rewrite map_map.
   apply map_ext. intro fl. unfold on_snd. cbn [snd]. rewrite Hi. reflexivity.
 Qed.
 
@@ -533,13 +639,75 @@ Qed.
 
 Lemma lstep_plain_nx : forall st c nx nx', plainc c = true -> lstep st c nx = lstep st c nx'.
 Proof.
-  intros st c nx nx' H. destruct (plainc_spec c H) as (Q & A & B & C & D).
-  destruct st; cbn [lstep]; rewrite ?Q, ?A, ?B, ?C, ?D; reflexivity.
+  intros st c nx nx' H. destruct (plainc_spec c H) as (Q & A & B & C & D & E). destruct (quote_39 c Q) as [Q1 Q2].
+  destruct st; cbn [Lint.lstep]; rewrite ?Q, ?Q1, ?A, ?B, ?C, ?D, ?E; try reflexivity.
+  destruct (nq (cp c) =? q) eqn:Eq; [|reflexivity]. apply N.eqb_eq in Eq. subst q. rewrite Q2. reflexivity.
+Qed.
+
+(* what a kept character may see of the characters after it.  The characters are paired with their classes: the tag of
+   a dollar-quoted string needs to be the same only where the scanner took it for one (its characters are class 1) *)
+Definition lit1 (p : cc) : bool := snd p =? 1.
+Definition la_ok (t t' : list cc) : Prop :=
+  next_is 45 (chars t) = next_is 45 (chars t') /\ next_is 42 (chars t) = next_is 42 (chars t') /\
+  next_is 47 (chars t) = next_is 47 (chars t') /\ next_q39 (chars t) = next_q39 (chars t') /\
+  next2_39 (chars t) = next2_39 (chars t') /\
+  (dollar_tag (chars t) = None -> dollar_tag (chars t') = None) /\
+  (forall tag, dollar_tag (chars t) = Some tag -> forallb lit1 (firstn (S (length tag)) t) = true ->
+               dollar_tag (chars t') = Some tag).
+
+Lemma la_eq_ok : forall t t', la_eq (chars t) (chars t') -> la_ok t t'.
+Proof.
+  intros t t' (H1 & H2 & H3 & H4 & H5 & H6 & H7 & H8). unfold la_ok. rewrite <- H8. repeat split; try assumption.
+  - intro Ht. exact Ht.
+  - intros tag Ht _. exact Ht.
+Qed.
+Lemma la_ok_refl : forall t, la_ok t t.
+Proof. intro t. apply la_eq_ok. apply la_eq_refl. Qed.
+
+Lemma scan_tag_len : forall l tag, scan_tag l = Some tag -> (S (length tag) <= length l)%nat.
+Proof.
+  induction l as [|c t IH]; intros tag H; [discriminate|]. cbn [Lint.scan_tag] in H.
+  destruct (cp c =? 36); [injection H as <-; cbn; lia|]. destruct (idc (cp c)); [|discriminate].
+  destruct (Lint.scan_tag idc t) as [g|] eqn:E; [|discriminate]. injection H as <-. specialize (IH g eq_refl). cbn [length]. lia.
+Qed.
+Lemma dollar_tag_len : forall l tag, dollar_tag l = Some tag -> (S (length tag) <= length l)%nat.
+Proof.
+  intros [|c t] tag H; [discriminate|]. unfold Lint.dollar_tag in H.
+  destruct ((cp c =? 36) || ids (cp c)); [apply scan_tag_len; exact H|discriminate].
+Qed.
+
+(* the characters the scanner jumps over are class 1 *)
+Lemma lex_skip_lit : forall n a l, (n <= length l)%nat -> forallb lit1 (firstn n (combine l (lex (SSkip n a) l))) = true.
+Proof.
+  induction n as [|n IH]; intros a l H; [reflexivity|]. destruct l as [|c l]; [cbn in H; lia|].
+  cbn [Lint.lex Lint.lstep fst snd combine firstn forallb]. cbn [length] in H.
+  destruct n as [|k]; [reflexivity|]. cbn [lit1 snd N.eqb andb]. apply IH. lia.
+Qed.
+
+Lemma chars_combine0 : forall l ks, length ks = length l -> chars (combine l ks) = l.
+Proof.
+  unfold chars. induction l as [|c l IH]; intros ks H; destruct ks as [|k ks]; try discriminate; [reflexivity|].
+  cbn. f_equal. apply IH. cbn in H. lia.
+Qed.
+
+(* a kept character whose look-ahead is preserved is read as before *)
+Lemma lstep_la_ok : forall st c l t' s, s = snd (lstep st c l) -> la_ok (combine l (lex s l)) t' ->
+  lstep st c (chars t') = lstep st c l.
+Proof.
+  intros st c l t' s Es (H1 & H2 & H3 & H4 & H5 & H6 & H7).
+  rewrite (chars_combine0 l (lex s l) (lex_length l s)) in *.
+  destruct st; cbn [Lint.lstep] in *; rewrite <- ?H1, <- ?H2, <- ?H3, <- ?H4, <- ?H5; try reflexivity.
+  destruct ((cp c =? 39) && next2_39 l) eqn:E1; [reflexivity|]. destruct (is_quote c) eqn:E2; [reflexivity|].
+  destruct ((cp c =? 45) && next_is 45 l) eqn:E3; [reflexivity|]. destruct ((cp c =? 47) && next_is 42 l) eqn:E4; [reflexivity|].
+  destruct (cp c =? 36) eqn:E5; [|reflexivity].
+  destruct (Lint.dollar_tag ids idc l) as [tag|] eqn:D.
+  - cbn [snd] in Es. subst s. rewrite (H7 tag eq_refl); [reflexivity|]. apply lex_skip_lit. apply dollar_tag_len. exact D.
+  - rewrite (H6 eq_refl). reflexivity.
 Qed.
 
 Inductive edit : bool -> list cc -> list cc -> Prop :=
 | e_nil : forall b, edit b [] []
-| e_keep : forall b p t t', edit (code0 p) t t' -> la_eq (chars t) (chars t') -> edit b (p :: t) (p :: t')
+| e_keep : forall b p t t', edit (code0 p) t t' -> la_ok t t' -> edit b (p :: t) (p :: t')
 | e_keepp : forall b p t t', plainc (fst p) = true -> edit (code0 p) t t' -> edit b (p :: t) (p :: t')
 | e_del : forall b p t t', plainc (fst p) = true -> (snd p = 0 \/ snd p = 3) -> edit (code0 p) t t' -> edit b (p :: t) t'
 | e_delc : forall p t t', plainc (fst p) = true -> edit true t t' -> edit true (p :: t) t'
@@ -555,25 +723,24 @@ Proof.
   intros b cl out H. induction H as [b|b p t t' H IH La|b p t t' Hp H IH|b p t t' Hp Hk H IH|p t t' Hp H IH|c t t' Hc H IH];
     intros st l Hl E Hb.
   - destruct l as [|c l]; [|discriminate]. repeat split. intros c [].
-  - destruct l as [|c l]; [discriminate|]. cbn [lex combine] in E. injection E as E1 E2. subst p.
+  - destruct l as [|c l]; [discriminate|]. cbn [Lint.lex combine] in E. injection E as E1 E2. subst p.
     assert (Hl' : no_nl l) by (intros d Hd; apply Hl; right; exact Hd).
-    assert (Ec : chars t = l) by (rewrite E2; apply chars_combine; apply lex_length).
-    rewrite Ec in La.
-    assert (Es : lstep st c (chars t') = lstep st c l) by (apply lstep_nx; unfold la_eq in *; intuition congruence).
+    rewrite E2 in La.
+    assert (Es : lstep st c (chars t') = lstep st c l) by (apply (lstep_la_ok st c l t' _ eq_refl La)).
     destruct (IH (snd (lstep st c l)) l Hl' E2) as (I1 & I2 & I3).
     { unfold code0. cbn [snd]. intro Hk. apply N.eqb_eq in Hk. apply (lstep_class0 st c l (Hl c (or_introl eq_refl)) Hk). }
-    cbn [chars map lex lex_end fst snd]. fold (chars t'). rewrite Es. rewrite I1, I2. repeat split.
+    cbn [chars map Lint.lex Lint.lex_end fst snd]. fold (chars t'). rewrite Es. rewrite I1, I2. repeat split.
     intros d [Hd|Hd]; [subst; apply Hl; left; reflexivity|apply I3; exact Hd].
-  - destruct l as [|c l]; [discriminate|]. cbn [lex combine] in E. injection E as E1 E2. subst p. cbn [fst] in Hp.
+  - destruct l as [|c l]; [discriminate|]. cbn [Lint.lex combine] in E. injection E as E1 E2. subst p. cbn [fst] in Hp.
     assert (Hl' : no_nl l) by (intros d Hd; apply Hl; right; exact Hd).
     assert (Es : lstep st c (chars t') = lstep st c l) by (apply lstep_plain_nx; exact Hp).
     destruct (IH (snd (lstep st c l)) l Hl' E2) as (I1 & I2 & I3).
     { unfold code0. cbn [snd]. intro Hk. apply N.eqb_eq in Hk. apply (lstep_class0 st c l (Hl c (or_introl eq_refl)) Hk). }
-    cbn [chars map lex lex_end fst snd]. fold (chars t'). rewrite Es. rewrite I1, I2. repeat split.
+    cbn [chars map Lint.lex Lint.lex_end fst snd]. fold (chars t'). rewrite Es. rewrite I1, I2. repeat split.
     intros d [Hd|Hd]; [subst; apply Hl; left; reflexivity|apply I3; exact Hd].
-  - destruct l as [|c l]; [discriminate|]. cbn [lex combine] in E. injection E as E1 E2. subst p. cbn [fst snd] in *.
+  - destruct l as [|c l]; [discriminate|]. cbn [Lint.lex combine] in E. injection E as E1 E2. subst p. cbn [fst snd] in *.
     assert (Hl' : no_nl l) by (intros d Hd; apply Hl; right; exact Hd).
-    destruct (plainc_spec c Hp) as (_ & A & _ & _ & Dn).
+    destruct (plainc_spec c Hp) as (_ & A & _ & _ & Dn & _).
     assert (Est : st = snd (lstep st c l) /\ (fst (lstep st c l) = 0 -> st = SCode)).
     { destruct Hk as [Hk|Hk].
       - destruct (lstep_class0 st c l Dn Hk) as [S1 S2]. rewrite S2. split; [exact S1|intros _; exact S1].
@@ -581,32 +748,21 @@ Proof.
     destruct Est as [Est Ecode]. rewrite <- Est in E2.
     destruct (IH st l Hl' E2) as (I1 & I2 & I3).
     { unfold code0. cbn [snd]. intro Hz. apply N.eqb_eq in Hz. apply Ecode. exact Hz. }
-    cbn [lex_end]. rewrite <- Est. repeat split; assumption.
-  - destruct l as [|c l]; [discriminate|]. cbn [lex combine] in E. injection E as E1 E2. subst p. cbn [fst] in Hp.
+    cbn [Lint.lex_end]. rewrite <- Est. repeat split; assumption.
+  - destruct l as [|c l]; [discriminate|]. cbn [Lint.lex combine] in E. injection E as E1 E2. subst p. cbn [fst] in Hp.
     assert (Hl' : no_nl l) by (intros d Hd; apply Hl; right; exact Hd).
     rewrite (Hb eq_refl) in *. rewrite (lstep_plain_code c l Hp) in E2. cbn [snd] in E2.
     destruct (IH SCode l Hl' E2 (fun _ => eq_refl)) as (I1 & I2 & I3).
-    cbn [lex_end]. rewrite (lstep_plain_code c l Hp). cbn [snd]. repeat split; assumption.
+    cbn [Lint.lex_end]. rewrite (lstep_plain_code c l Hp). cbn [snd]. repeat split; assumption.
   - rewrite (Hb eq_refl) in *. destruct (IH SCode l Hl E (fun _ => eq_refl)) as (I1 & I2 & I3).
-    cbn [chars map lex lex_end fst snd]. fold (chars t'). rewrite (lstep_plain_code c (chars t') Hc). cbn [fst snd].
-    rewrite I1, I2. repeat split. intros d [Hd|Hd]; [subst; destruct (plainc_spec d Hc) as (_ & _ & _ & _ & Z); exact Z|apply I3; exact Hd].
+    cbn [chars map Lint.lex Lint.lex_end fst snd]. fold (chars t'). rewrite (lstep_plain_code c (chars t') Hc). cbn [fst snd].
+    rewrite I1, I2. repeat split. intros d [Hd|Hd]; [subst; destruct (plainc_spec d Hc) as (_ & _ & _ & _ & Z & _); exact Z|apply I3; exact Hd].
 Qed.
 
 Lemma edit_is_lock : forall f, (forall cl, cno_nl cl -> edit false cl (f cl)) -> lock f.
 Proof.
   intros f H st l Hl. apply (edit_lock false _ _ (H _ (combine_cno l (lex st l) Hl)) st l Hl eq_refl). discriminate.
 Qed.
-
-(* look-ahead facts *)
-Lemma la_same_head : forall c t t', la_eq (c :: t) (c :: t').
-Proof. intros. repeat split. Qed.
-Lemma la_plain_heads : forall c d t t', lan c = true -> lan d = true -> la_eq (c :: t) (d :: t').
-Proof.
-  intros c d t t' Hc Hd. pose proof (la_neutral c t Hc) as (A1 & A2 & A3). pose proof (la_neutral d t' Hd) as (B1 & B2 & B3).
-  unfold la_eq. rewrite A1, A2, A3, B1, B2, B3. repeat split.
-Qed.
-Lemma la_sym : forall a b, la_eq a b -> la_eq b a.
-Proof. intros a b (H1 & H2 & H3). repeat split; symmetry; assumption. Qed.
 
 (* ------------------------------------------------------------------------------------------------ *)
 (* the reading of classified lines *)
@@ -699,18 +855,24 @@ Section Reading.
       unfold on_snd at 1 2. cbn [fst snd]. apply Hf. intro He. rewrite (H1 He). apply absorbs_scons.
   Qed.
 End Reading.
+Ltac unf_wsp := unfold wsp.
+Ltac unf_wsp1 := unfold wsp at 1.
 
 (* the lines produced by the scanner agree *)
+Ltac brk := repeat match goal with
+  | |- context [if ?b then _ else _] => destruct b
+  | |- context [match ?x with Some _ => _ | None => _ end] => destruct x
+  end.
+
+Lemma lstep_class3n : forall st c nx, fst (lstep st c nx) = 3 -> snd (lstep st c nx) = SLine.
+Proof. intros st c nx. destruct st; cbn [Lint.lstep]; brk; cbn [fst snd]; intro H; try discriminate H; reflexivity. Qed.
+
 Lemma lstep_last : forall st c, is_nl c = false ->
   (fst (lstep st c []) = 0 \/ fst (lstep st c []) = 3) -> fst (nl_step (snd (lstep st c []))) = 0.
 Proof.
-  intros st c Hn Hk. destruct st; cbn [lstep next_is] in *; rewrite ?andb_false_r in *.
-  - destruct (is_quote c); cbn [fst snd] in *; [destruct Hk; discriminate|reflexivity].
-  - cbn [fst] in Hk. destruct Hk; discriminate.
-  - rewrite Hn in *. reflexivity.
-  - cbn [fst] in Hk. destruct Hk; discriminate.
-  - cbn [fst] in Hk. destruct Hk; discriminate.
-  - cbn [fst] in Hk. destruct Hk; discriminate.
+  intros st c Hn [Hk|Hk].
+  - destruct (lstep_class0 st c [] Hn Hk) as [_ S2]. rewrite S2. reflexivity.
+  - rewrite (lstep_class3n st c [] Hk). reflexivity.
 Qed.
 
 Lemma last_class_nl : forall l st c k, no_nl l -> lastc (combine l (lex st l)) = Some (c, k) -> (k = 0 \/ k = 3) ->
@@ -719,9 +881,9 @@ Proof.
   induction l as [|d t IH]; intros st c k Hl H Hk; [discriminate|].
   assert (Hd : is_nl d = false) by (apply Hl; left; reflexivity).
   destruct t as [|e t].
-  - cbn [lex combine lastc] in H. injection H as E1 E2. subst d. cbn [lex_end]. apply lstep_last; [exact Hd|]. rewrite E2. exact Hk.
-  - cbn [lex_end]. apply (IH (snd (lstep st d (e :: t))) c k); [intros x Hx; apply Hl; right; exact Hx| |exact Hk].
-    cbn [lex combine] in H. cbn [lex combine]. rewrite lastc_cons in H by discriminate. exact H.
+  - cbn [Lint.lex combine lastc] in H. injection H as E1 E2. subst d. cbn [Lint.lex_end]. apply lstep_last; [exact Hd|]. rewrite E2. exact Hk.
+  - cbn [Lint.lex_end]. apply (IH (snd (lstep st d (e :: t))) c k); [intros x Hx; apply Hl; right; exact Hx| |exact Hk].
+    cbn [Lint.lex combine] in H. cbn [Lint.lex combine]. rewrite lastc_cons in H by discriminate. exact H.
 Qed.
 
 Lemma thread_cons_ok : forall ls st flag, Forall no_nl ls -> cons_ok (thread st flag ls).
@@ -745,22 +907,33 @@ Proof.
   apply orb_prop in H2. destruct H2 as [H2|H2]; apply N.eqb_eq in H2; auto.
 Qed.
 
-Lemma la_all_plain : forall (t : list cc) (q : cc -> bool), (forall p, q p = true -> plainc (fst p) = true) ->
+Lemma la_all_lan : forall (t : list cc) (q : cc -> bool), (forall p, q p = true -> lan (fst p) = true) ->
   forallb q t = true -> la_eq (chars t) [].
 Proof.
   intros [|p t] q Hq H; [apply la_eq_refl|]. cbn in H. apply andb_prop in H. destruct H as [H _].
-  cbn [chars map]. apply la_neutral. apply plain_lan. apply Hq. exact H.
+  cbn [chars map]. apply la_neutral. apply Hq. exact H.
 Qed.
+
+(* trimming characters that stop every look-ahead from the end of a line is invisible to the characters before them *)
+Lemma la_trim_r : forall (q : cc -> bool) t, (forall p, q p = true -> lan (fst p) = true) ->
+  la_eq (chars t) (chars (trim_r q t)).
+Proof.
+  intros q t Hq. destruct (trim_r_split q t) as (b & E & Hb). rewrite E at 1. unfold chars. rewrite map_app. apply la_app.
+  destruct b as [|p b]; [reflexivity|]. cbn in Hb. apply andb_prop in Hb. cbn [map hd_neutral]. apply Hq. tauto.
+Qed.
+
+Lemma tblank_lan : forall p, tblank p = true -> lan (fst p) = true.
+Proof. intros p H. apply blank_lan. apply (tblank_spec p H). Qed.
 
 Lemma edit_trim_r_tblank : forall cl b, edit b cl (trim_r tblank cl).
 Proof.
-  induction cl as [|p t IH]; intro b; [constructor|]. rewrite trim_r_cons. destruct (trim_r tblank t) as [|a r] eqn:E.
+  induction cl as [|p t IH]; intro b; [constructor|]. rewrite trim_r_cons.
+  pose proof (IH (code0 p)) as I. pose proof (la_eq_ok _ _ (la_trim_r tblank t tblank_lan)) as L.
+  destruct (trim_r tblank t) as [|a r] eqn:E.
   - destruct (tblank p) eqn:Ep.
-    + destruct (tblank_spec p Ep) as [B K]. apply e_del; [apply blank_plain; exact B|exact K|]. apply IH.
-    + apply e_keep; [apply IH|]. apply trim_r_nil_iff in E.
-      apply (la_all_plain t tblank); [|exact E]. intros q Hq. apply blank_plain. apply (tblank_spec q Hq).
-  - apply e_keep; [apply IH|]. destruct (trim_r_split tblank t) as (bb & Et & _). rewrite E in Et. rewrite Et.
-    cbn [app chars map]. apply la_same_head.
+    + destruct (tblank_spec p Ep) as [B K]. apply e_del; [apply blank_plain; exact B|exact K|]. exact I.
+    + apply e_keep; assumption.
+  - apply e_keep; assumption.
 Qed.
 
 Lemma l001_lock : lock l001_line.
@@ -777,7 +950,7 @@ Qed.
 
 Theorem l001_fix_clears : forall t, l001_check (l001_fix t) = [].
 Proof.
-  intro t. unfold l001_check, l001_fix. rewrite (relex l001_line t l001_lock). apply on_clines_nil.
+  intro t. unfold Lint.l001_check, Lint.l001_fix. rewrite (relex l001_line t l001_lock). apply on_clines_nil.
   intros n fl Hfl. apply in_map_iff in Hfl. destruct Hfl as (fl0 & E & _). subst. unfold l001_check_line, on_snd. cbn [snd].
   unfold l001_line. rewrite trim_r_idem. rewrite Nat.ltb_irrefl. reflexivity.
 Qed.
@@ -810,7 +983,7 @@ Section L001Reading.
 
   Theorem l001_keeps_reading : forall t, reading is_space upper_ascii (l001_fix t) = reading is_space upper_ascii t.
   Proof.
-    intro t. unfold reading, l001_fix. rewrite (relex l001_line t l001_lock). f_equal.
+    intro t. unfold Lint.reading, Lint.l001_fix. rewrite (relex l001_line t l001_lock). f_equal.
     apply RDL_map; [apply clines_cons_ok|apply l001_line_RD].
   Qed.
 End L001Reading.
@@ -819,7 +992,7 @@ End L001Reading.
 (* L002 *)
 
 Lemma edit_refl : forall cl b, edit b cl cl.
-Proof. induction cl as [|p t IH]; intro b; [constructor|]. apply e_keep; [apply IH|apply la_eq_refl]. Qed.
+Proof. induction cl as [|p t IH]; intro b; [constructor|]. apply e_keep; [apply IH|apply la_ok_refl]. Qed.
 
 Lemma lblank_spec : forall p, lblank p = true -> is_blank (fst p) = true /\ snd p = 0.
 Proof. intros p H. unfold lblank, code0 in H. apply andb_prop in H. destruct H as [H1 H2]. apply N.eqb_eq in H2. split; assumption. Qed.
@@ -895,7 +1068,7 @@ Qed.
 
 Theorem l002_fix_clears : forall t, l002_check (l002_fix t) = [].
 Proof.
-  intro t. unfold l002_check, l002_fix. rewrite (relex l002_line t l002_lock).
+  intro t. unfold Lint.l002_check, Lint.l002_fix. rewrite (relex l002_line t l002_lock).
   apply l002_check_notab; [left; reflexivity|].
   intros fl Hfl. apply in_map_iff in Hfl. destruct Hfl as (fl0 & E & _). subst. unfold on_snd. cbn [snd]. apply l002_fixed_leading.
 Qed.
@@ -927,7 +1100,7 @@ Section L002Reading.
 
   Theorem l002_keeps_reading : forall t, reading is_space upper_ascii (l002_fix t) = reading is_space upper_ascii t.
   Proof.
-    intro t. unfold reading, l002_fix. rewrite (relex l002_line t l002_lock). f_equal.
+    intro t. unfold Lint.reading, Lint.l002_fix. rewrite (relex l002_line t l002_lock). f_equal.
     apply RDL_map; [apply clines_cons_ok|]. intros cl Z _. apply l002_line_RD.
   Qed.
 End L002Reading.
@@ -948,8 +1121,9 @@ Qed.
 
 Lemma la_l010_scan : forall t, la_eq (chars t) (chars (l010_scan false t)).
 Proof.
-  intro t. destruct (l010_scan_head t) as [[_ E]|(p & r & r' & E1 & E2)]; [subst; apply la_eq_refl|].
-  rewrite E2, E1. cbn [chars map]. apply la_same_head.
+  induction t as [|p t IH]; [apply la_eq_refl|]. cbn [l010_scan]. destruct (cspace p) eqn:E; cbn [app chars map].
+  - destruct (cspace_spec p E) as [S _]. apply la_neutral_heads; apply blank_lan; apply sp_blank; exact S.
+  - apply la_cons. exact IH.
 Qed.
 
 Lemma edit_l010_scan : forall t ps b, edit b t (l010_scan ps t).
@@ -958,7 +1132,7 @@ Proof.
   - destruct (cspace_spec p E) as [S K]. destruct ps; cbn [app].
     + apply e_del; [apply blank_plain; apply sp_blank; exact S|left; exact K|apply IH].
     + apply e_keepp; [apply blank_plain; apply sp_blank; exact S|apply IH].
-  - apply e_keep; [apply IH|apply la_l010_scan].
+  - apply e_keep; [apply IH|apply la_eq_ok; apply la_l010_scan].
 Qed.
 
 Lemma edit_l010 : forall cl b, edit b cl (l010_line cl).
@@ -1045,7 +1219,7 @@ Section L010Reading.
 
   Theorem l010_keeps_reading : forall t, reading is_space upper_ascii (l010_fix t) = reading is_space upper_ascii t.
   Proof.
-    intro t. unfold reading, l010_fix. rewrite (relex l010_line t l010_lock). f_equal.
+    intro t. unfold Lint.reading, Lint.l010_fix. rewrite (relex l010_line t l010_lock). f_equal.
     apply RDL_map; [apply clines_cons_ok|]. intros cl Z _. apply l010_line_RD.
   Qed.
 End L010Reading.
@@ -1058,8 +1232,12 @@ Section L007.
   Variable upper_ascii : N -> option N.
   Variable keywords : list (list N).
   (* facts about the tables, decided on the regenerated tables in Inst_C17 *)
-  Definition plainN (n : N) : Prop := nq n <> 39 /\ nq n <> 34 /\ n <> 96 /\ n <> 45 /\ n <> 42 /\ n <> 47 /\ n <> 10.
+  Definition plainN (n : N) : Prop := nq n <> 39 /\ nq n <> 34 /\ n <> 96 /\ n <> 45 /\ n <> 42 /\ n <> 47 /\ n <> 10 /\ n <> 36.
   Hypothesis up_plain : forall x u, upper_ascii x = Some u -> plainN x /\ plainN u.
+  (* a rune with an ASCII upper-case image is a letter: it starts and continues a tag, as its image does *)
+  Definition up_tag (upper_ascii : N -> option N) : Prop :=
+    forall x u, upper_ascii x = Some u -> ids x = true /\ idc x = true /\ idc u = true.
+  Hypothesis up_id : up_tag upper_ascii.
   Hypothesis up_letter : forall x u, upper_ascii x = Some u -> is_letter u = true.
   Hypothesis up_idem : forall x u, upper_ascii x = Some u -> upper_ascii u = Some u.
   Hypothesis up_nows : forall x u, upper_ascii x = Some u -> is_space x = false /\ x <> 32 /\ x <> 9 /\ x <> 10.
@@ -1072,9 +1250,9 @@ Section L007.
 
   Lemma plainN_plainc : forall c, plainN (cp c) -> plainc c = true.
   Proof.
-    intros c (A & B & C & D & E & F & G). unfold plainc, is_quote, lan, is_nl.
+    intros c (A & B & C & D & E & F & G & H). unfold plainc, is_quote, lan0, is_nl.
     apply N.eqb_neq in A. apply N.eqb_neq in B. apply N.eqb_neq in C. apply N.eqb_neq in D. apply N.eqb_neq in E. apply N.eqb_neq in F. apply N.eqb_neq in G.
-    rewrite A, B, C, D, E, F, G. reflexivity.
+    apply N.eqb_neq in H. rewrite A, B, C, D, E, F, G, H. reflexivity.
   Qed.
 
   (* the fixed line is related to the line character by character: a character is copied, or a code character with an
@@ -1123,24 +1301,70 @@ Section L007.
   Lemma line7_prel : forall l, Forall2 prel l (line7 l).
   Proof. intro l. unfold l007_line. exact (scan7_prel l None I). Qed.
 
-  Lemma prel_lan : forall p p', prel p p' -> lan (fst p') = lan (fst p).
+  (* what the scanner may look ahead at is the same after the conversion *)
+  Lemma prel_obs : forall p p', prel p p' ->
+    (cp (fst p') =? 45) = (cp (fst p) =? 45) /\ (cp (fst p') =? 42) = (cp (fst p) =? 42) /\ (cp (fst p') =? 47) = (cp (fst p) =? 47) /\
+    (cp (fst p') =? 39) = (cp (fst p) =? 39) /\ (nq (cp (fst p')) =? 39) = (nq (cp (fst p)) =? 39) /\ (cp (fst p') =? 36) = (cp (fst p) =? 36) /\
+    idc (cp (fst p')) = idc (cp (fst p)).
   Proof.
-    intros p p' [H|(K & u & H1 & H2)]; subst; [reflexivity|]. destruct (up_plain _ _ H1) as [P1 P2].
-    cbn [fst]. rewrite (plain_lan _ (plainN_plainc (asc u) P2)). rewrite (plain_lan _ (plainN_plainc (fst p) P1)). reflexivity.
+    intros p p' [H|(K & u & H1 & H2)]; subst; [repeat split|]. destruct (up_plain _ _ H1) as [P1 P2]. destruct (up_id _ _ H1) as (_ & I1 & I2).
+    assert (Q : forall n, plainN n -> (n =? 45) = false /\ (n =? 42) = false /\ (n =? 47) = false /\ (n =? 39) = false /\ (nq n =? 39) = false /\ (n =? 36) = false).
+    { intros n (A & B & C & D & E & F & G & H). repeat split; apply N.eqb_neq; try assumption. intro Z. apply A. apply nq_39. exact Z. }
+    destruct (Q _ P1) as (A1 & A2 & A3 & A4 & A5 & A6). destruct (Q _ P2) as (B1 & B2 & B3 & B4 & B5 & B6).
+    cbn [fst asc cp]. rewrite A1, A2, A3, A4, A5, A6, B1, B2, B3, B4, B5, B6, I1, I2. repeat split.
   Qed.
 
-  Lemma prel_la : forall t t', Forall2 prel t t' -> la_eq (chars t) (chars t').
+  Lemma prel_scan_none : forall t t', Forall2 prel t t' -> scan_tag (chars t) = None -> scan_tag (chars t') = None.
   Proof.
-    intros t t' H. destruct H as [|p p' t t' Hp _]; [apply la_eq_refl|]. cbn [chars map].
-    destruct Hp as [Hp|(K & u & H1 & H2)]; subst; [apply la_same_head|]. destruct (up_plain _ _ H1) as [P1 P2].
-    apply la_plain_heads; apply plain_lan; apply plainN_plainc; assumption.
+    intros t t' H. induction H as [|p p' t t' Hp _ IH]; intro Hs; [reflexivity|]. cbn [chars map Lint.scan_tag] in *. fold (chars t) in *. fold (chars t') in *.
+    destruct (prel_obs p p' Hp) as (_ & _ & _ & _ & _ & E6 & E7). rewrite E6, E7.
+    destruct (cp (fst p) =? 36); [discriminate|]. destruct (idc (cp (fst p))); [|reflexivity].
+    destruct (Lint.scan_tag idc (chars t)); [discriminate|]. rewrite (IH eq_refl). reflexivity.
+  Qed.
+
+  Lemma prel_scan_some : forall t t', Forall2 prel t t' -> forall tag, scan_tag (chars t) = Some tag ->
+    forallb lit1 (firstn (S (length tag)) t) = true -> scan_tag (chars t') = Some tag.
+  Proof.
+    intros t t' H. induction H as [|p p' t t' Hp _ IH]; intros tag Hs Hl; [discriminate|]. cbn [chars map Lint.scan_tag] in *. fold (chars t) in *. fold (chars t') in *.
+    cbn [firstn forallb] in Hl. apply andb_prop in Hl. destruct Hl as [L1 L2].
+    assert (p' = p).
+    { destruct Hp as [Hp|(K & _)]; [exact Hp|]. unfold lit1 in L1. rewrite K in L1. discriminate. }
+    subst p'. destruct (cp (fst p) =? 36); [exact Hs|]. destruct (idc (cp (fst p))); [|discriminate].
+    destruct (Lint.scan_tag idc (chars t)) as [g|] eqn:Eg; [|discriminate]. injection Hs as <-. cbn [length] in L2.
+    rewrite (IH g eq_refl L2). reflexivity.
+  Qed.
+
+  Lemma prel_la_ok : forall t t', Forall2 prel t t' -> la_ok t t'.
+  Proof.
+    intros t t' H. unfold la_ok.
+    assert (N1 : forall k, (k = 45 \/ k = 42 \/ k = 47) -> next_is k (chars t) = next_is k (chars t')).
+    { intros k Hk. destruct H as [|p p' t t' Hp _]; [reflexivity|]. cbn [chars map next_is].
+      destruct (prel_obs p p' Hp) as (E1 & E2 & E3 & _). destruct Hk as [Hk|[Hk|Hk]]; subst k; symmetry; assumption. }
+    split; [apply N1; auto|]. split; [apply N1; auto|]. split; [apply N1; auto|]. split; [|split; [|split]].
+    - destruct H as [|p p' t t' Hp _]; [reflexivity|]. cbn [chars map next_q39]. destruct (prel_obs p p' Hp) as (_ & _ & _ & _ & E5 & _). symmetry. exact E5.
+    - destruct H as [|p p' t t' Hp Ht]; [reflexivity|]. cbn [chars map]. rewrite !next2_cons.
+      destruct (prel_obs p p' Hp) as (_ & _ & _ & E4 & _). rewrite E4. f_equal.
+      destruct Ht as [|q q' t t' Hq _]; [reflexivity|]. cbn [chars map next_is]. destruct (prel_obs q q' Hq) as (_ & _ & _ & F4 & _). symmetry. exact F4.
+    - intro Hn. pose proof (prel_scan_none t t' H) as Sn. destruct H as [|p p' t t' Hp Ht]; [reflexivity|].
+      cbn [chars map Lint.dollar_tag] in *. fold (chars t) in *. fold (chars t') in *.
+      destruct ((cp (fst p') =? 36) || ids (cp (fst p'))) eqn:Ec'; [|reflexivity].
+      apply Sn. destruct ((cp (fst p) =? 36) || ids (cp (fst p))) eqn:Ec; [exact Hn|].
+      (* the head of t does not start a tag: then it was not converted *)
+      destruct Hp as [Hp|(K & u & H1 & H2)]; [subst p'; rewrite Ec in Ec'; discriminate|].
+      destruct (up_id _ _ H1) as (I0 & _). rewrite I0, orb_true_r in Ec. discriminate.
+    - intros tag Hs Hl. pose proof (prel_scan_some t t' H tag) as Ss. destruct H as [|p p' t t' Hp Ht]; [discriminate|].
+      cbn [chars map Lint.dollar_tag] in *. fold (chars t) in *. fold (chars t') in *.
+      assert (p' = p).
+      { cbn [firstn forallb] in Hl. apply andb_prop in Hl. destruct Hl as [L1 _].
+        destruct Hp as [Hp|(K & _)]; [exact Hp|]. unfold lit1 in L1. rewrite K in L1. discriminate. }
+      subst p'. destruct ((cp (fst p) =? 36) || ids (cp (fst p))); [|discriminate]. apply Ss; assumption.
   Qed.
 
   Lemma prel_edit : forall cl out, Forall2 prel cl out -> forall b, edit b cl out.
   Proof.
     intros cl out H. induction H as [|p p' t t' Hp Ht IH]; intro b; [constructor|].
     destruct Hp as [Hp|(K & u & H1 & H2)]; subst.
-    - apply e_keep; [apply IH|apply prel_la; exact Ht].
+    - apply e_keep; [apply IH|apply prel_la_ok; exact Ht].
     - destruct (up_plain _ _ H1) as [P1 P2].
       apply e_del; [apply plainN_plainc; exact P1|left; exact K|]. unfold code0. rewrite K. cbn [N.eqb].
       apply e_ins; [apply (plainN_plainc (asc u)); exact P2|apply IH].
@@ -1192,7 +1416,7 @@ Section L007.
   Theorem l007_keeps_reading : forall t,
     reading is_space upper_ascii (l007_fix is_letter is_digit upper_ascii keywords t) = reading is_space upper_ascii t.
   Proof.
-    intro t. unfold reading, l007_fix. rewrite (relex line7 t l007_lock). f_equal.
+    intro t. unfold Lint.reading, Lint.l007_fix. rewrite (relex line7 t l007_lock). f_equal.
     apply RDL_map; [apply clines_cons_ok|]. intros cl Z _. apply prel_RD. apply line7_prel.
   Qed.
 End L007.
@@ -1319,12 +1543,18 @@ Section L003Text.
 
   Lemma spacec_plain : forall c, spacec is_space c = true -> is_nl c = false -> plainc c = true.
   Proof.
-    intros c H Hn. destruct sp_nodelim as (A & B & C & D & E & F & Q1 & Q2 & Q3 & Q4 & Q5 & Q6). unfold spacec in H.
-    unfold plainc, is_quote, lan. rewrite Hn.
+    intros c H Hn. destruct sp_nodelim as (A & B & C & D & E & F & Q1 & Q2 & Q3 & Q4 & Q5 & Q6 & Q7 & _). unfold spacec in H.
+    unfold plainc, is_quote, lan0. rewrite Hn.
     assert (G : forall n, is_space n = false -> (cp c =? n) = false).
     { intros n Hs. destruct (cp c =? n) eqn:En; [|reflexivity]. apply N.eqb_eq in En. rewrite En in H. rewrite Hs in H. discriminate H. }
     rewrite (nq_other (cp c) (G 8216 Q1) (G 8217 Q2) (G 171 Q3) (G 187 Q4) (G 8220 Q5) (G 8221 Q6)).
-    rewrite (G 39 A), (G 34 B), (G 96 C), (G 45 D), (G 42 E), (G 47 F). reflexivity.
+    rewrite (G 39 A), (G 34 B), (G 96 C), (G 45 D), (G 42 E), (G 47 F), (G 36 Q7). reflexivity.
+  Qed.
+  (* a white space character stops every look-ahead *)
+  Lemma spacec_lan : forall c, spacec is_space c = true -> is_nl c = false -> lan c = true.
+  Proof.
+    intros c H Hn. apply plain_lan; [apply spacec_plain; assumption|]. destruct sp_nodelim as (_ & _ & _ & _ & _ & _ & _ & _ & _ & _ & _ & _ & _ & Q).
+    apply Q. exact H.
   Qed.
 
   Lemma blank_line_all : forall l, blank_line is_space l = true -> forallb (spacec is_space) l = true.
@@ -1340,7 +1570,7 @@ Section L003Text.
   Lemma lex_plain_code : forall l, forallb plainc l = true -> lex SCode l = map (fun _ => 0) l /\ lex_end SCode l = SCode.
   Proof.
     induction l as [|c t IH]; intro H; [split; reflexivity|]. cbn in H. apply andb_prop in H. destruct H as [H1 H2].
-    cbn [lex lex_end map]. rewrite (lstep_plain_code c t H1). cbn [fst snd]. destruct (IH H2) as [I1 I2]. rewrite I1, I2. split; reflexivity.
+    cbn [Lint.lex Lint.lex_end map]. rewrite (lstep_plain_code c t H1). cbn [fst snd]. destruct (IH H2) as [I1 I2]. rewrite I1, I2. split; reflexivity.
   Qed.
 
   Lemma ws_line_plain : forall l, no_nl l -> forallb (spacec is_space) l = true -> forallb plainc l = true.
@@ -1370,7 +1600,7 @@ Section L003Text.
     intros mx. induction ls as [|l r IH]; intros st flag cnt Hi Hall; [reflexivity|]. inversion Hall as [|? ? Hl Hr]; subst.
     cbn [thread l003_pass]. rewrite chars_snd_thread. destruct (flag && blank_line is_space l) eqn:Eb.
     - apply andb_prop in Eb. destruct Eb as [Ef Eb]. subst flag. rewrite (Hi eq_refl) in *.
-      destruct (lex_plain_code l (ws_line_plain l Hl (blank_line_all l Eb))) as [E1 E2]. rewrite E2. cbn [nl_step lstep fst snd N.eqb].
+      destruct (lex_plain_code l (ws_line_plain l Hl (blank_line_all l Eb))) as [E1 E2]. rewrite E2. cbn [nl_step Lint.lstep fst snd N.eqb].
       change (snd (nl_step SCode)) with SCode. change (fst (nl_step SCode) =? 0) with true.
       destruct (S cnt <=? mx)%nat.
       + cbn [map thread snd]. rewrite chars_combine by apply lex_length. rewrite E2.
@@ -1387,7 +1617,7 @@ Section L003Text.
 
   Lemma l003_relex : forall mx t, (1 <= mx)%nat -> clines (l003_fix_mx is_space mx t) = pass mx 0 (clines t).
   Proof.
-    intros mx t Hm. unfold l003_fix_mx. rewrite l003_lines_eq. rewrite (clines_thread t). rewrite clines_join.
+    intros mx t Hm. unfold Lint.l003_fix_mx. rewrite l003_lines_eq. rewrite (clines_thread t). rewrite clines_join.
     - apply thread_pass; [intros _; reflexivity|apply split_no_nl].
     - apply map_ne. apply pass_nonempty; [exact Hm|]. apply thread_ne. apply split_nonempty.
     - apply Forall_forall. intros x Hx. apply in_map_iff in Hx. destruct Hx as (fl & E & Hfl). subst. apply pass_incl in Hfl.
@@ -1397,14 +1627,14 @@ Section L003Text.
   Theorem l003_fix_idempotent_mx : forall mx t, (1 <= mx)%nat ->
     l003_fix_mx is_space mx (l003_fix_mx is_space mx t) = l003_fix_mx is_space mx t.
   Proof.
-    intros mx t Hm. unfold l003_fix_mx at 1. rewrite l003_lines_eq. rewrite (l003_relex mx t Hm).
+    intros mx t Hm. unfold Lint.l003_fix_mx at 1. rewrite l003_lines_eq. rewrite (l003_relex mx t Hm).
     rewrite pass_fixed by exact (pass_bounded is_space mx (clines t) 0%nat).
-    unfold l003_fix_mx. rewrite l003_lines_eq. reflexivity.
+    unfold Lint.l003_fix_mx. rewrite l003_lines_eq. reflexivity.
   Qed.
 
   Theorem l003_fix_clears_mx : forall mx t, (1 <= mx)%nat -> l003_check_mx is_space mx (l003_fix_mx is_space mx t) = [].
   Proof.
-    intros mx t Hm. unfold l003_check_mx. rewrite (l003_relex mx t Hm).
+    intros mx t Hm. unfold Lint.l003_check_mx. rewrite (l003_relex mx t Hm).
     apply check_bounded; [lia|]. exact (pass_bounded is_space mx (clines t) 0%nat).
   Qed.
 
@@ -1476,18 +1706,21 @@ Section L003Text.
   Theorem l003_keeps_reading : forall mx t, (1 <= mx)%nat ->
     reading is_space upper_ascii (l003_fix_mx is_space mx t) = reading is_space upper_ascii t.
   Proof.
-    intros mx t Hm. unfold reading. rewrite (l003_relex mx t Hm).
+    intros mx t Hm. unfold Lint.reading. rewrite (l003_relex mx t Hm).
     assert (Hb : bl_ok (clines t)) by (rewrite clines_thread; apply thread_bl_ok; [intros _; reflexivity|apply split_no_nl]).
     rewrite <- (strip_T (pass mx 0 (clines t))) by (apply pass_hflag; [exact Hb|apply clines_hflag]).
     rewrite <- (strip_T (clines t)) by apply clines_hflag. rewrite (T_pass mx _ 0%nat Hb). reflexivity.
   Qed.
 End L003Text.
+Ltac unf_T := unfold T.
+Ltac unf_T1 := unfold T at 1.
 
 Section CliReading.
   Variables is_letter is_digit is_space : N -> bool.
   Variable upper_ascii : N -> option N.
   Variable keywords : list (list N).
   Hypothesis up_plain : forall x u, upper_ascii x = Some u -> plainN x /\ plainN u.
+  Hypothesis up_id : up_tag upper_ascii.
   Hypothesis up_idem : forall x u, upper_ascii x = Some u -> upper_ascii u = Some u.
   Hypothesis up_nows : forall x u, upper_ascii x = Some u -> is_space x = false /\ x <> 32 /\ x <> 9 /\ x <> 10.
   Hypothesis sp_nodelim : sp_ok is_space.
@@ -1495,9 +1728,9 @@ Section CliReading.
   Theorem cli_keeps_reading : forall t,
     reading is_space upper_ascii (cli_fix is_letter is_digit is_space upper_ascii keywords t) = reading is_space upper_ascii t.
   Proof.
-    intro t. unfold cli_fix.
-    rewrite (l007_keeps_reading is_letter is_digit is_space upper_ascii keywords up_plain up_idem up_nows).
-    rewrite l010_keeps_reading. unfold l003_fix. rewrite (l003_keeps_reading is_space upper_ascii sp_nodelim 1) by lia.
+    intro t. unfold Lint.cli_fix.
+    rewrite (l007_keeps_reading is_letter is_digit is_space upper_ascii keywords up_plain up_id up_idem up_nows).
+    rewrite l010_keeps_reading. unfold Lint.l003_fix. rewrite (l003_keeps_reading is_space upper_ascii sp_nodelim 1) by lia.
     rewrite l002_keeps_reading. apply l001_keeps_reading.
   Qed.
 End CliReading.
@@ -1557,14 +1790,16 @@ Section Format.
     induction cl as [|p t IH]; intros b Hn; [constructor|].
     assert (Hp : is_nl (fst p) = false) by (apply Hn; left; reflexivity).
     assert (Ht : cno_nl t) by (intros q Hq; apply Hn; right; exact Hq).
-    rewrite trim_r_cons. destruct (trim_r tspace t) as [|a r] eqn:E.
+    rewrite trim_r_cons. pose proof (IH (code0 p) Ht) as I.
+    assert (L : la_ok t (trim_r tspace t)).
+    { destruct (trim_r_split tspace t) as (bb & Et & Hb). apply la_eq_ok. rewrite Et at 1. unfold chars. rewrite map_app. apply la_app.
+      destruct bb as [|q bb]; [reflexivity|]. cbn in Hb. apply andb_prop in Hb. destruct Hb as [Hq _]. cbn [map hd_neutral].
+      apply (spacec_lan is_space sp_nodelim); [apply (tspace_spec q Hq)|]. apply Ht. rewrite Et. apply in_or_app. right. left. reflexivity. }
+    destruct (trim_r tspace t) as [|a r] eqn:E.
     - destruct (tspace p) eqn:Ep.
-      + destruct (tspace_spec p Ep) as [B K]. apply e_del; [apply (spacec_plain is_space sp_nodelim); assumption|exact K|]. apply IH. exact Ht.
-      + apply e_keep; [apply IH; exact Ht|]. apply trim_r_nil_iff in E.
-        destruct t as [|q t]; [apply la_eq_refl|]. cbn in E. apply andb_prop in E. destruct E as [E _].
-        cbn [chars map]. apply la_neutral. apply plain_lan. apply (spacec_plain is_space sp_nodelim); [apply (tspace_spec q E)|apply Ht; left; reflexivity].
-    - apply e_keep; [apply IH; exact Ht|]. destruct (trim_r_split tspace t) as (bb & Et & _). rewrite E in Et. rewrite Et.
-      cbn [app chars map]. apply la_same_head.
+      + destruct (tspace_spec p Ep) as [B K]. apply e_del; [apply (spacec_plain is_space sp_nodelim); assumption|exact K|]. exact I.
+      + apply e_keep; assumption.
+    - apply e_keep; assumption.
   Qed.
 
   Lemma edit_trim_l_sp : forall cl out, cno_nl cl -> edit true (trim_l spf cl) out -> edit true cl out.
@@ -1666,7 +1901,7 @@ Section Format.
 
   Lemma lead_code : forall l, no_nl l -> forallb code0 (take_l spf (combine l (lex SCode l))) = true.
   Proof.
-    induction l as [|c t IH]; intro Hn; [reflexivity|]. cbn [lex combine take_l fst]. destruct (spacec c) eqn:E; [|reflexivity].
+    induction l as [|c t IH]; intro Hn; [reflexivity|]. cbn [Lint.lex combine take_l fst]. destruct (spacec c) eqn:E; [|reflexivity].
     assert (Hp : plainc c = true) by (apply (spacec_plain is_space sp_nodelim); [exact E|apply Hn; left; reflexivity]).
     rewrite (lstep_plain_code c t Hp). cbn [fst snd forallb code0 N.eqb andb]. apply IH. intros d Hd. apply Hn. right. exact Hd.
   Qed.
@@ -1680,7 +1915,7 @@ Section Format.
       assert (Hs : forallb spacec l = true) by (pose proof (trim_code_nil_ws _ E) as Z; rewrite chars_combine in Z by apply lex_length; exact Z).
       destruct (lex_plain_code l (ws_line_plain is_space sp_nodelim l Hl Hs)) as [E1 E2]. rewrite E1, E2. split.
       + clear -Hs. induction l as [|c l IH]; [reflexivity|]. cbn in *. apply andb_prop in Hs. destruct Hs as [H1 H2].
-        unfold LintP.wsp at 1. cbn [fst snd]. unfold Lint.wsc. rewrite H1. cbn. apply IH. exact H2.
+        unf_wsp1. cbn [fst snd]. unfold Lint.wsc. rewrite H1. cbn. apply IH. exact H2.
       + destruct r; [exact I|reflexivity].
     - intro He. destruct r as [|y r]; [exact I|]. cbn [thread hflag fst].
       pose proof (thread_cons_ok (l :: y :: r) st flag Hall) as Hc. cbn [thread cons_ok] in Hc. destruct Hc as [Hc _]. apply Hc. exact He.
@@ -1697,20 +1932,20 @@ Section Format.
   Lemma blank_spacec : forall l, forallb is_blank l = true -> forallb wsp (cpairs l) = true /\ forallb code0 (cpairs l) = true.
   Proof.
     induction l as [|c l IH]; intro H; [split; reflexivity|]. cbn in H. apply andb_prop in H. destruct H as [H1 H2].
-    destruct (IH H2) as [I1 I2]. cbn [cpairs map forallb]. fold (cpairs l). rewrite I1, I2. unfold LintP.wsp, code0. cbn [fst snd N.eqb].
+    destruct (IH H2) as [I1 I2]. cbn [cpairs map forallb]. fold (cpairs l). rewrite I1, I2. unf_wsp; unfold code0. cbn [fst snd N.eqb].
     unfold Lint.wsc. rewrite H1. rewrite orb_true_r. split; reflexivity.
   Qed.
 
   Lemma spf_wsp_code : forall a, forallb spf a = true -> forallb code0 a = true -> forallb wsp a = true.
   Proof.
-    intros a H1 H2. apply forallb_forall. intros p Hp. rewrite forallb_forall in H1, H2. unfold LintP.wsp, Lint.wsc.
+    intros a H1 H2. apply forallb_forall. intros p Hp. rewrite forallb_forall in H1, H2. unf_wsp; unfold Lint.wsc.
     rewrite (H1 p Hp). specialize (H2 p Hp). unfold code0 in H2. rewrite H2. reflexivity.
   Qed.
 
   Lemma tspace_wsp : forall b, forallb tspace b = true -> forallb wsp b = true.
   Proof.
     intros b H. apply forallb_forall. intros p Hp. rewrite forallb_forall in H. specialize (H p Hp).
-    unfold Lint.tspace in H. apply andb_prop in H. destruct H as [H1 H2]. unfold LintP.wsp, Lint.wsc. rewrite H1, H2. reflexivity.
+    unfold Lint.tspace in H. apply andb_prop in H. destruct H as [H1 H2]. unf_wsp; unfold Lint.wsc. rewrite H1, H2. reflexivity.
   Qed.
 
   (* the reading of a line that begins in code, in front of Y, is the reading of its trimmed text *)
@@ -1729,7 +1964,7 @@ Section Format.
   Qed.
 
   Lemma T_cons : forall x r, T (x :: r) = scons (sep x) (RD (snd x) (T r)).
-  Proof. intros x r. unfold LintP.T at 1. rewrite RDL_T. reflexivity. Qed.
+  Proof. intros x r. unf_T1. rewrite RDL_T. reflexivity. Qed.
 
   Lemma T_flines : forall ind ls cur, forallb is_blank ind = true -> forallb is_blank cur = true -> fok ls ->
     T (flines ind cur ls) = T ls.
@@ -1747,7 +1982,10 @@ Section Format.
   Qed.
 
   Lemma nl_class_end : forall s, (fst (nl_step s) =? 0) = end_code s.
-  Proof. intros [| q | | | |]; reflexivity. Qed.
+  Proof.
+    intro s. destruct s; try reflexivity. unfold nl_step. cbn [Lint.lstep].
+    destruct (nq (cp nlc) =? q); [destruct ((q =? 39) && next_q39 [])|]; reflexivity.
+  Qed.
 
   Lemma eflag_end : forall ls st flag, ls <> [] -> eflag st flag ls = end_code (lex_end st (join_nl ls)).
   Proof.
@@ -1769,7 +2007,7 @@ Section Format.
   Proof.
     induction L as [|fl r IH]; intro H; [contradiction|]. destruct r as [|fl2 r]; [reflexivity|].
     change ((fl :: fl2 :: r) ++ [(true, [])]) with (fl :: (fl2 :: r) ++ [(true, [])]).
-    rewrite RDL_T. rewrite (RDL_T _ _ fl (fl2 :: r)). f_equal. unfold LintP.T. cbn [app].
+    rewrite RDL_T. rewrite (RDL_T _ _ fl (fl2 :: r)). f_equal. unf_T. cbn [app].
     change (fl2 :: r ++ [(true, [])]) with ((fl2 :: r) ++ [(true, [])]). rewrite IH by discriminate. reflexivity.
   Qed.
 
@@ -1779,7 +2017,7 @@ Section Format.
   Theorem format_keeps_reading : forall tab spaces final t,
     reading is_space upper_ascii (format_sql is_space upper_ascii tab spaces final t) = reading is_space upper_ascii t.
   Proof.
-    intros tab spaces final t. unfold format_sql.
+    intros tab spaces final t. unfold Lint.format_sql.
     set (ind := if spaces then repeat spc tab else [asc 9]).
     assert (Hi : forallb is_blank ind = true).
     { unfold ind. destruct spaces; [|reflexivity]. induction tab as [|n IH]; [reflexivity|cbn; exact IH]. }
@@ -1792,17 +2030,17 @@ Section Format.
     assert (HT : T L = T (thread SCode true (split_nl t))) by (apply T_flines; [exact Hi|reflexivity|exact Hok]).
     assert (HL : hflag L) by (apply flines_hflag; assumption).
     assert (Rt : reading is_space upper_ascii t = strip_lead (T L)).
-    { unfold reading. rewrite clines_thread. rewrite <- (strip_T is_space upper_ascii _ Hh). rewrite HT. reflexivity. }
+    { unfold Lint.reading. rewrite clines_thread. rewrite <- (strip_T is_space upper_ascii _ Hh). rewrite HT. reflexivity. }
     rewrite Rt. destruct L as [|fl0 L0] eqn:EL.
     - (* nothing is left: the formatted text is empty or a single line break *)
       unfold lines. cbn [map join_nl app]. destruct (final && negb (ends_nl []) && end_code (lex_end SCode t)); reflexivity.
     - assert (Hne : lines <> []) by (unfold lines; discriminate).
       assert (Cf : clines (join_nl lines) = fl0 :: L0) by (rewrite clines_join by assumption; exact R1).
       assert (Rf : reading is_space upper_ascii (join_nl lines) = strip_lead (T (fl0 :: L0))).
-      { unfold reading. rewrite Cf. symmetry. apply strip_T. exact HL. }
+      { unfold Lint.reading. rewrite Cf. symmetry. apply strip_T. exact HL. }
       destruct (final && negb (ends_nl (join_nl lines)) && end_code (lex_end SCode t)) eqn:Ec; [|exact Rf].
       apply andb_prop in Ec. destruct Ec as [_ Ee].
-      rewrite <- (join_snoc_empty lines Hne). unfold reading.
+      rewrite <- (join_snoc_empty lines Hne). unfold Lint.reading.
       rewrite clines_join by (try apply Forall_app_nonl; try assumption; destruct lines; discriminate).
       rewrite thread_snoc_empty. rewrite R1. rewrite R3.
       rewrite (eflag_end (split_nl t) SCode true (split_nonempty t)). rewrite join_split. rewrite Ee.
@@ -1856,7 +2094,7 @@ Section Format.
 
   Lemma lex_end_snoc_nl : forall l st, end_code (lex_end st l) = true -> end_code (lex_end st (l ++ [nlc])) = true.
   Proof.
-    intros l st H. destruct (lex_app l st [nlc] lan_nlc) as [_ E]. rewrite E. cbn [lex_end]. rewrite lstep_nlc.
+    intros l st H. destruct (lex_app l st [nlc] lan_nlc) as [_ E]. rewrite E. cbn [Lint.lex_end]. rewrite lstep_nlc.
     destruct (lex_end st l); try discriminate; reflexivity.
   Qed.
 
@@ -1864,7 +2102,7 @@ Section Format.
     format_sql is_space upper_ascii tab spaces final (format_sql is_space upper_ascii tab spaces final t)
     = format_sql is_space upper_ascii tab spaces final t.
   Proof.
-    intros tab spaces final t. unfold format_sql at 2 3.
+    intros tab spaces final t. unfold Lint.format_sql at 2 3.
     set (ind := if spaces then repeat spc tab else [asc 9]).
     assert (Hi : forallb is_blank ind = true).
     { unfold ind. destruct spaces; [|reflexivity]. induction tab as [|n IH]; [reflexivity|cbn; exact IH]. }
@@ -1879,7 +2117,7 @@ Section Format.
     - (* nothing is left *)
       unfold lines in *. cbn [map] in *. cbn [eflag] in R3. rewrite Ht in R3. rewrite <- R3.
       cbn [join_nl ends_nl rev negb andb app]. rewrite andb_true_r.
-      destruct final; unfold format_sql; reflexivity.
+      destruct final; unfold Lint.format_sql; reflexivity.
     - assert (Hne : lines <> []) by (unfold lines; discriminate).
       assert (Cf : clines (join_nl lines) = fl0 :: L0) by (rewrite clines_join by assumption; exact R1).
       assert (Ef : end_code (lex_end SCode (join_nl lines)) = end_code (lex_end SCode t)).
@@ -1890,9 +2128,9 @@ Section Format.
         { rewrite <- (join_snoc_empty lines Hne).
           rewrite clines_join by (try apply Forall_app_nonl; try assumption; destruct lines; discriminate).
           rewrite thread_snoc_empty. rewrite R1. rewrite R3. rewrite Ht. rewrite Ee. reflexivity. }
-        unfold format_sql. fold ind. rewrite Cn. rewrite fmt_lines_flines. rewrite flines_snoc_empty. rewrite Lidem.
+        unfold Lint.format_sql. fold ind. rewrite Cn. rewrite fmt_lines_flines. rewrite flines_snoc_empty. rewrite Lidem.
         fold lines. rewrite E1, E2. rewrite lex_end_snoc_nl by (rewrite Ef; exact Ee). reflexivity.
-      + unfold format_sql. fold ind. rewrite Cf. rewrite fmt_lines_flines. rewrite Lidem. fold lines. rewrite Ef. rewrite Ec. reflexivity.
+      + unfold Lint.format_sql. fold ind. rewrite Cf. rewrite fmt_lines_flines. rewrite Lidem. fold lines. rewrite Ef. rewrite Ec. reflexivity.
   Qed.
 End Format.
 
@@ -2256,6 +2494,7 @@ Section L007Text.
   Variable upper_ascii : N -> option N.
   Variable keywords : list (list N).
   Hypothesis up_plain : forall x u, upper_ascii x = Some u -> plainN x /\ plainN u.
+  Hypothesis up_id : up_tag upper_ascii.
   Hypothesis up_letter : forall x u, upper_ascii x = Some u -> is_letter u = true.
   Hypothesis up_idem : forall x u, upper_ascii x = Some u -> upper_ascii u = Some u.
 
@@ -2264,13 +2503,13 @@ Section L007Text.
     = l007_fix is_letter is_digit upper_ascii keywords t.
   Proof.
     intro t. apply (per_cline_idem (l007_line is_letter is_digit upper_ascii keywords)).
-    - apply (l007_lock is_letter is_digit upper_ascii keywords up_plain).
+    - apply (l007_lock is_letter is_digit upper_ascii keywords up_plain up_id).
     - apply (l007_line_idem is_letter is_digit upper_ascii keywords up_letter up_idem).
   Qed.
   Theorem l007_fix_clears : forall t,
     l007_check is_letter is_digit upper_ascii keywords (l007_fix is_letter is_digit upper_ascii keywords t) = [].
   Proof.
-    intro t. unfold l007_check, l007_fix. rewrite (relex _ t (l007_lock is_letter is_digit upper_ascii keywords up_plain)).
+    intro t. unfold Lint.l007_check, Lint.l007_fix. rewrite (relex _ t (l007_lock is_letter is_digit upper_ascii keywords up_plain up_id)).
     apply on_clines_nil. intros n fl Hfl. apply in_map_iff in Hfl. destruct Hfl as (fl0 & E & _). subst.
     apply (l007_line_clears is_letter is_digit upper_ascii keywords up_letter up_idem).
   Qed.
@@ -2376,7 +2615,7 @@ Theorem l002_check_exact : forall t n col,
   In (n, col) (l002_check t) <->
   col = 1%nat /\ (1 <= n)%nat /\ exists fl, nth_error (clines t) (n - 1) = Some fl /\ l002_defect 0 (firstn (n - 1) (clines t)) (snd fl).
 Proof.
-  intros t n col. unfold l002_check. rewrite l002_lines_exact. split.
+  intros t n col. unfold Lint.l002_check. rewrite l002_lines_exact. split.
   - intros (Hc & i & l & Hn & En & Hd). subst n. replace (1 + i - 1)%nat with i by lia. split; [exact Hc|]. split; [lia|]. exists l. split; assumption.
   - intros (Hc & H1 & l & Hn & Hd). split; [exact Hc|]. exists (n - 1)%nat, l. split; [exact Hn|]. split; [lia|exact Hd].
 Qed.
@@ -2455,7 +2694,7 @@ Section L003Exact.
     In (n, col) (l003_check_mx is_space mx t) <->
     col = 1%nat /\ (1 <= n)%nat /\ startsG 0 (clines t) (n - 1) /\ (mx < run_from (clines t) (n - 1))%nat.
   Proof.
-    intros mx t n col. unfold l003_check_mx. rewrite l003_lines_exact. split.
+    intros mx t n col. unfold Lint.l003_check_mx. rewrite l003_lines_exact. split.
     - intros (Hc & [(H1 & _)|(i & H1 & H2 & H3)]); [lia|]. subst n. replace (1 + i - 1)%nat with i by lia. repeat split; try assumption; try lia; apply H2.
     - intros (Hc & H1 & H2 & H3). split; [exact Hc|]. right. exists (n - 1)%nat. split; [lia|]. split; assumption.
   Qed.
@@ -2487,7 +2726,7 @@ Theorem l001_check_exact : forall t n col,
   exists fl, nth_error (clines t) (n - 1) = Some fl /\ (1 <= n)%nat /\ ends_tblank (snd fl) /\
              col = S (blen (chars (trim_r tblank (snd fl)))).
 Proof.
-  intros t n col. unfold l001_check. rewrite on_clines_in. split.
+  intros t n col. unfold Lint.l001_check. rewrite on_clines_in. split.
   - intros (i & fl & Hn & Hin). unfold l001_check_line, l001_line in Hin.
     destruct (length (trim_r tblank (snd fl)) <? length (snd fl))%nat eqn:F; [|destruct Hin].
     destruct Hin as [Hin|[]]. injection Hin as E1 E2; subst n col. exists fl. replace (S i - 1)%nat with i by lia.
@@ -2545,7 +2784,7 @@ Theorem l005_check_exact : forall is_space mx t n col,
             (starts2 45 45 (trim_space is_space (chars (snd fl))) || starts2 47 42 (trim_space is_space (chars (snd fl)))) = false /\
             (mx < blen (chars (snd fl)))%nat /\ col = S mx.
 Proof.
-  intros is_space mx t n col. unfold l005_check. rewrite on_clines_in. split.
+  intros is_space mx t n col. unfold Lint.l005_check. rewrite on_clines_in. split.
   - intros (i & fl & Hn & Hin). unfold l005_check_line in Hin. cbv zeta in Hin. destruct (chars (snd fl)) as [|c l] eqn:El; [destruct Hin|].
     destruct (starts2 45 45 (trim_space is_space (c :: l)) || starts2 47 42 (trim_space is_space (c :: l))) eqn:Ec; [destruct Hin|].
     destruct (mx <? blen (c :: l))%nat eqn:Eb; [|destruct Hin]. destruct Hin as [Hin|[]]. assert (E1 : (n - 1 = i)%nat /\ (1 <= n)%nat /\ col = S mx) by (inversion Hin; subst; repeat split; lia).
@@ -2574,7 +2813,7 @@ Definition Lfix (f : list cc -> list cc) (t : list ch) : Prop := Forall (fun fl 
 
 Lemma Lfix_fixed : forall f t, Lfix f t -> per_cline f t = t.
 Proof.
-  intros f t H. unfold per_cline. rewrite <- (clines_chars t) at 2. f_equal. apply map_ext_in. intros fl Hfl.
+  intros f t H. unfold Lint.per_cline. rewrite <- (clines_chars t) at 2. f_equal. apply map_ext_in. intros fl Hfl.
   unfold Lfix in H. rewrite Forall_forall in H. rewrite (H fl Hfl). reflexivity.
 Qed.
 
@@ -2711,6 +2950,7 @@ Section CliIdem.
   Variable upper_ascii : N -> option N.
   Variable keywords : list (list N).
   Hypothesis up_plain : forall x u, upper_ascii x = Some u -> plainN x /\ plainN u.
+  Hypothesis up_id : up_tag upper_ascii.
   Hypothesis up_letter : forall x u, upper_ascii x = Some u -> is_letter u = true.
   Hypothesis up_idem : forall x u, upper_ascii x = Some u -> upper_ascii u = Some u.
   Hypothesis up_nows : forall x u, upper_ascii x = Some u -> is_space x = false /\ x <> 32 /\ x <> 9 /\ x <> 10.
@@ -2837,12 +3077,12 @@ Section CliIdem.
 
   Lemma P3_fixed : forall t, P3 t -> l003_fix is_space t = t.
   Proof.
-    intros t H. unfold l003_fix, l003_fix_mx. rewrite l003_lines_eq. unfold P3 in H. rewrite H. apply clines_chars.
+    intros t H. unfold Lint.l003_fix, Lint.l003_fix_mx. rewrite l003_lines_eq. unfold P3 in H. rewrite H. apply clines_chars.
   Qed.
 
   Lemma P3_self : forall t, P3 (l003_fix is_space t).
   Proof.
-    intro t. unfold P3, l003_fix. rewrite (l003_relex is_space sp_nodelim 1 t) by lia.
+    intro t. unfold P3, Lint.l003_fix. rewrite (l003_relex is_space sp_nodelim 1 t) by lia.
     apply pass_fixed. exact (pass_bounded is_space 1 (clines t) 0%nat).
   Qed.
 
@@ -2853,7 +3093,7 @@ Section CliIdem.
 
   Lemma Lfix_l003 : forall f t, Lfix f t -> Lfix f (l003_fix is_space t).
   Proof.
-    intros f t H. unfold Lfix, l003_fix in *. rewrite (l003_relex is_space sp_nodelim 1 t) by lia.
+    intros f t H. unfold Lfix, Lint.l003_fix in *. rewrite (l003_relex is_space sp_nodelim 1 t) by lia.
     rewrite Forall_forall in *. intros fl Hfl. apply H. eapply pass_incl. exact Hfl.
   Qed.
 
@@ -2861,13 +3101,13 @@ Section CliIdem.
   Notation fix7 := (l007_fix is_letter is_digit upper_ascii keywords).
 
   Lemma l007_lock' : lock f7.
-  Proof. apply l007_lock. exact up_plain. Qed.
+  Proof. apply l007_lock; [exact up_plain|exact up_id]. Qed.
 
   Theorem cli_fixed_points : forall t,
     l001_fix (cli t) = cli t /\ l002_fix (cli t) = cli t /\ l003_fix is_space (cli t) = cli t /\
     l010_fix (cli t) = cli t /\ fix7 (cli t) = cli t.
   Proof.
-    intro t. unfold cli_fix. set (t1 := l001_fix t). set (t2 := l002_fix t1). set (t3 := l003_fix is_space t2).
+    intro t. unfold Lint.cli_fix. set (t1 := l001_fix t). set (t2 := l002_fix t1). set (t3 := l003_fix is_space t2).
     set (t10 := l010_fix t3). set (t7 := fix7 t10).
     assert (A1 : Lfix l001_line t7).
     { apply Lfix_per; [exact l007_lock'|exact f7_keeps_S1|]. apply Lfix_per; [exact l010_lock|exact f10_keeps_S1|].
@@ -2888,7 +3128,7 @@ Section CliIdem.
   Theorem cli_fix_idempotent : forall t, cli (cli t) = cli t.
   Proof.
     intro t. destruct (cli_fixed_points t) as (E1 & E2 & E3 & E10 & E7).
-    unfold cli_fix at 1. rewrite E1, E2, E3, E10, E7. reflexivity.
+    unfold Lint.cli_fix at 1. rewrite E1, E2, E3, E10, E7. reflexivity.
   Qed.
 End CliIdem.
 
@@ -3103,7 +3343,7 @@ Qed.
 
 Theorem l010_fix_clears : forall t, wft t -> l010_check (l010_fix t) = [].
 Proof.
-  intros t Hw. unfold l010_check, l010_fix. rewrite (relex l010_line t l010_lock). apply on_clines_nil.
+  intros t Hw. unfold Lint.l010_check, Lint.l010_fix. rewrite (relex l010_line t l010_lock). apply on_clines_nil.
   intros n fl Hfl. apply in_map_iff in Hfl. destruct Hfl as (fl0 & E & H0). subst.
   apply stable_line_clears; unfold on_snd; cbn [snd]; [|apply l010_line_idem].
   intros p Hp. rewrite f10_lead in Hp. apply take_l_incl in Hp. apply Hw. eapply clines_in_text; eassumption.
@@ -3173,7 +3413,7 @@ Qed.
 
 Lemma ascl_per_cline : forall f t, (forall l, ascl (chars l) -> ascl (chars (f l))) -> ascl t -> ascl (per_cline f t).
 Proof.
-  intros f t Hf Ht. unfold per_cline. apply ascl_join. intros l Hl. apply in_map_iff in Hl. destruct Hl as (fl & E & Hfl). subst.
+  intros f t Hf Ht. unfold Lint.per_cline. apply ascl_join. intros l Hl. apply in_map_iff in Hl. destruct Hl as (fl & E & Hfl). subst.
   apply Hf. intros c Hc. apply in_map_iff in Hc. destruct Hc as (p & Ep & Hp). subst. apply Ht. eapply clines_in_text; eassumption.
 Qed.
 
@@ -3199,7 +3439,7 @@ Qed.
 
 Lemma ascl_l003 : forall is_space t, ascl t -> ascl (l003_fix is_space t).
 Proof.
-  intros is_space t H. unfold l003_fix, l003_fix_mx. rewrite l003_lines_eq.
+  intros is_space t H. unfold Lint.l003_fix, Lint.l003_fix_mx. rewrite l003_lines_eq.
   apply ascl_join. intros l Hl. apply in_map_iff in Hl. destruct Hl as (fl & E & Hfl). subst. apply pass_incl in Hfl.
   intros c Hc. apply in_map_iff in Hc. destruct Hc as (p & Ep & Hp). subst. apply H. eapply clines_in_text; eassumption.
 Qed.
@@ -3237,7 +3477,7 @@ Section A7.
   Qed.
 
   Lemma ascl_cli : forall t, ascl t -> ascl (cli_fix is_letter is_digit is_space upper_ascii keywords t).
-  Proof. intros t H. unfold cli_fix. apply ascl_l007. apply ascl_l010. apply ascl_l003. apply ascl_l002. apply ascl_l001. exact H. Qed.
+  Proof. intros t H. unfold Lint.cli_fix. apply ascl_l007. apply ascl_l010. apply ascl_l003. apply ascl_l002. apply ascl_l001. exact H. Qed.
 
   Lemma ascl_fmt : forall ind ls cur, ascl ind -> ascl cur -> (forall fl, In fl ls -> ascl (chars (snd fl))) ->
     forall l, In l (fmt_lines is_space upper_ascii ind cur ls) -> ascl l.
@@ -3259,7 +3499,7 @@ Section A7.
 
   Lemma ascl_format : forall tab spaces final t, ascl t -> ascl (format_sql is_space upper_ascii tab spaces final t).
   Proof.
-    intros tab spaces final t H. unfold format_sql.
+    intros tab spaces final t H. unfold Lint.format_sql.
     set (ind := if spaces then repeat spc tab else [asc 9]).
     assert (Hi : ascl ind).
     { unfold ind. destruct spaces.
@@ -3285,7 +3525,7 @@ Section L007Exact.
       code_word is_letter is_digit (snd fl) pre wd post /\
       word_viol upper_ascii keywords (chars wd) = true /\ col = S (blen (chars pre)).
   Proof.
-    intros t n col. unfold l007_check. rewrite on_clines_in. split.
+    intros t n col. unfold Lint.l007_check. rewrite on_clines_in. split.
     - intros (i & fl & Hn & Hin). apply l007_line_exact in Hin. destruct Hin as (pre & wd & post & Hc & Hv & Ev).
       assert (E : (n - 1 = i)%nat /\ (1 <= n)%nat /\ col = S (blen (chars pre))) by (inversion Ev; subst; repeat split; lia).
       destruct E as (E1 & E2 & E3). exists fl, pre, wd, post. rewrite E1. split; [exact Hn|]. split; [exact E2|]. split; [exact Hc|]. split; [exact Hv|exact E3].
@@ -3495,7 +3735,7 @@ Theorem l010_check_exact : forall t n col,
   exists fl pre r post, nth_error (clines t) (n - 1) = Some fl /\ (1 <= n)%nat /\ cspace_run (snd fl) pre r post /\
     indent_bytes (snd fl) col = false /\ col = S (blen (chars pre)).
 Proof.
-  intros t n col. unfold l010_check. rewrite on_clines_in. split.
+  intros t n col. unfold Lint.l010_check. rewrite on_clines_in. split.
   - intros (i & fl & Hn & Hin). apply l010_line_exact in Hin. destruct Hin as (pre & r & post & Hc & Hi & Ev).
     assert (E : (n - 1 = i)%nat /\ (1 <= n)%nat /\ col = S (blen (chars pre))) by (inversion Ev; subst; repeat split; lia).
     destruct E as (E1 & E2 & E3). exists fl, pre, r, post. rewrite E1, E3. split; [exact Hn|]. split; [exact E2|]. split; [exact Hc|]. split; [exact Hi|reflexivity].
@@ -3511,3 +3751,5 @@ Proof.
   - split; [exact H1|]. assert (n - 1 < length (clines t))%nat by (apply nth_error_Some; congruence). lia.
   - subst col. rewrite E. unfold chars. rewrite map_app, blen_app. split; [apply le_n_S; apply Nat.le_0_l|]. apply le_n_S. apply Nat.le_add_r.
 Qed.
+
+End Ids.
